@@ -587,6 +587,16 @@ def _pi2lev_combos():
 PI2LEV_COMBOS = _pi2lev_combos()
 
 
+def _st_label_len(draw, common):
+    """label length in bytes: the usual ones, or anything from 8 to 130 (tokens and PRF outputs then exceed 128 / 256 bytes)"""
+    k = draw(st.integers(0, 3))
+    if k <= 1:
+        return draw(st.sampled_from(common))
+    if k == 2:
+        return draw(st.integers(8, 130))
+    return draw(st.sampled_from([64, 96, 100, 128, 130]))
+
+
 class CT14(Desc):
     name = "CT14.Pi"
 
@@ -596,7 +606,7 @@ class CT14(Desc):
             return c
         c["param_k"] = draw(st.sampled_from([8, 16, 20, 24, 32, 48]))
         c["param_k_prime"] = draw(st.sampled_from([16, 24, 32]))
-        c["param_l"] = draw(st.sampled_from([8, 16, 20, 32]))
+        c["param_l"] = _st_label_len(draw, [8, 16, 20, 32])
         c["param_identifier_size"] = _st_idsz(draw, [1, 4, 8, 16])
         c["prf_f"] = draw(st.sampled_from(PRF_ALIASES))
         c["prf_f_prime"] = draw(st.sampled_from(PRF_ALIASES))
@@ -628,8 +638,8 @@ class ANSS16(CT14):
         c["param_k"] = k
         c["param_k_prime"] = k
         c["param_lambda"] = draw(st.sampled_from([16, 32, 48]))
-        c["param_l"] = draw(st.sampled_from([8, 16, 32]))
-        c["param_l_prime"] = draw(st.sampled_from([8, 16, 32]))
+        c["param_l"] = _st_label_len(draw, [8, 16, 32])
+        c["param_l_prime"] = _st_label_len(draw, [8, 16, 32])
         c["param_identifier_size"] = _st_idsz(draw, [1, 4, 8, 16])
         c["prf"] = draw(st.sampled_from(PRF_ALIASES))
         c["ske"] = draw(st.sampled_from(SKE_ALIASES))
